@@ -107,3 +107,63 @@ Proof.
     + discriminate.
     + destruct s; [cbn [f64_round_u64]; unfold DAY_US; lia|]. apply round_finite_le_day. exact Hl.
 Qed.
+
+(** ** the division lemma: when the f64 test [f <= fl(p / t)] is false, the
+    exact rational p/t is below the exact value of f (for totals < 2^53) *)
+Theorem div_deny_exact :
+  forall (p t : Z) (f : F64),
+    (0 <= p <= t)%Z -> (0 < t < 2^53)%Z -> is_finite f = true ->
+    fle f (fdiv (ofZ p) (ofZ t)) = false ->
+    (IZR p / IZR t < B2R f)%R.
+Proof.
+  intros p t f Hp Ht Ff Hle.
+  destruct (ofZ_exact p) as [Rp Fp]; [lia|].
+  destruct (ofZ_exact t) as [Rt Ft]; [lia|].
+  assert (Htpos: (0 < IZR t)%R) by (apply IZR_lt; lia).
+  assert (Hq01: (0 <= IZR p / IZR t <= 1)%R).
+  { split. apply Rmult_le_pos. apply IZR_le; lia. left. now apply Rinv_0_lt_compat.
+    apply Rmult_le_reg_r with (IZR t); auto. unfold Rdiv. rewrite Rmult_assoc, Rinv_l by lra.
+    rewrite Rmult_1_r, Rmult_1_l. apply IZR_le; lia. }
+  generalize (Bdiv_correct prec64 emax64 _ _ mode_NE (ofZ p) (ofZ t)).
+  rewrite Rp, Rt. intros Hd. specialize (Hd ltac:(lra)).
+  assert (Hr01: (0 <= rnd64 (IZR p / IZR t) <= 1)%R).
+  { split.
+    - assert (H0: rnd64 0 = 0%R) by (apply round_0; auto with typeclass_instances).
+      rewrite <- H0 at 1. apply round_le; [apply (fexp_correct prec64 emax64 Hprec64) | apply valid_rnd_N | apply Hq01].
+    - assert (H1: rnd64 1 = 1%R).
+      { apply round_generic; auto with typeclass_instances.
+        change 1%R with (IZR 1). apply format_small_Z. simpl. lia. }
+      rewrite <- H1. apply round_le; [apply (fexp_correct prec64 emax64 Hprec64) | apply valid_rnd_N | apply Hq01]. }
+  change (round_mode mode_NE) with ZnearestE in Hd.
+  rewrite Rlt_bool_true in Hd.
+  2:{ rewrite Rabs_pos_eq by lra. apply Rle_lt_trans with 1%R. lra.
+      change 1%R with (bpow radix2 0). apply bpow_lt. unfold emax64; lia. }
+  destruct Hd as (Hv & Hfin & _). rewrite Fp in Hfin.
+  unfold fle, fdiv in Hle. rewrite Bleb_correct in Hle by assumption.
+  rewrite Hv in Hle.
+  destruct (Rle_bool_spec (B2R f) (rnd64 (IZR p / IZR t))) as [H|H]; [discriminate|].
+  destruct (Rlt_or_le (IZR p / IZR t) (B2R f)) as [Hlt|Hge]; [exact Hlt|].
+  exfalso. apply (Rlt_irrefl (B2R f)). eapply Rle_lt_trans; [|exact H].
+  assert (Hf: rnd64 (B2R f) = B2R f).
+  { apply round_generic; [apply valid_rnd_N | apply generic_format_B2R]. }
+  rewrite <- Hf at 1.
+  apply round_le; [apply (fexp_correct prec64 emax64 Hprec64) | apply valid_rnd_N | exact Hge].
+Qed.
+
+(** a float that passed [(0.0..=1.0).contains] is a real number in [0,1] *)
+Lemma unit_range_finite : forall f : F64,
+  fle f64_zero f = true -> fle f (ofZ 1) = true ->
+  is_finite f = true /\ (0 <= B2R f <= 1)%R.
+Proof.
+  intros f H0 H1.
+  destruct (ofZ_exact 1) as [R1 F1]; [simpl; lia|].
+  assert (Hfin : is_finite f = true).
+  { destruct f as [s|s| |s m e Hb]; try reflexivity.
+    - destruct s; [vm_compute in H0; discriminate|vm_compute in H1; discriminate].
+    - vm_compute in H0; discriminate. }
+  split; [exact Hfin|].
+  unfold fle in *. rewrite Bleb_correct in H0, H1 by (auto; reflexivity).
+  rewrite R1 in H1. change (B2R f64_zero) with 0%R in H0.
+  destruct (Rle_bool_spec 0 (B2R f)); [|discriminate].
+  destruct (Rle_bool_spec (B2R f) 1); [|discriminate]. lra.
+Qed.
